@@ -788,7 +788,62 @@ def o_so3_boundary(inp):
     return None if ok else {'tag': f'{entry}/accepted-but-wrong-result', 'observed': r, 'expected': Mx}
 
 
-ORACLES = {'quat': o_quat, 'ops': o_ops, 'dcm_route': o_dcm_route, 'so3_boundary': o_so3_boundary, 'decision': o_decision}
+DCM_METHODS = [('shepperd', {}), ('hughes', {}), ('chiaverini', {}), ('sarabandi', {}), ('sarabandi', {'threshold': 0.5}),
+               ('itzhack', {'version': 1}), ('itzhack', {'version': 2}), ('itzhack', {'version': 3})]
+
+
+def rotation_regions(rng, n):
+    """valid rotation matrices from the thin regions of SO(3), built without the package: exact half-turns about generic axes
+    (as 2nn^T - I and as the matrix of a pure quaternion), near-half-turns, identity, near-identity, quarter turns, scalar part < 0"""
+    out = [('identity', np.eye(3))]
+    for ax in np.eye(3):
+        out.append(('half-turn', 2 * np.outer(ax, ax) - np.eye(3)))
+        out.append(('quarter-turn', cm.Rspec(cm.axang_q(ax, math.pi / 2))))
+    for ax in ([1, 1, 0], [1, 1, 1], [0, 1, -1], [1, 2, 3]):
+        a = np.array(ax, float) / np.linalg.norm(ax)
+        out.append(('half-turn', 2 * np.outer(a, a) - np.eye(3)))
+        out.append(('half-turn', cm.Rspec(np.r_[0.0, a])))
+    for _ in range(n):
+        a = rng.standard_normal(3); a /= np.linalg.norm(a)
+        out.append(('half-turn', 2 * np.outer(a, a) - np.eye(3)))
+        out.append(('half-turn', cm.Rspec(np.r_[0.0, a])))
+        for d in (1e-12, 1e-9, 1e-7, 1e-6, 1e-4, 1e-3):
+            out.append(('near-half-turn', cm.Rspec(cm.axang_q(a, math.pi - d))))
+            out.append(('near-half-turn', cm.Rspec(cm.axang_q(a, math.pi + d))))
+            out.append(('near-identity', cm.Rspec(cm.axang_q(a, d))))
+        out.append(('generic', cm.Rspec(cm.rand_unit_quat(rng))))
+        out.append(('quarter-turn', cm.Rspec(cm.axang_q(a, math.pi / 2))))
+        out.append(('generic', cm.Rspec(cm.axang_q(a, math.pi + 0.3))))
+    return out
+
+
+def o_dcm_methods(inp):
+    """Quaternion(dcm=R, method=m) / QuaternionArray(DCM=[R..], method=m) on a VALID rotation matrix, every method: accepted, real
+    float64, unit to 1e-12.  (Which of +-q / whether it is the right rotation is property C02, not checked here.)"""
+    import ahrs
+    Rm = np.array(inp['M'], float)
+    entry, m, kw = inp['entry'], inp['method'], dict(inp.get('kw', {}))
+    reg = inp.get('region', 'generic')
+    cls = reg if reg in ('half-turn', 'near-half-turn') else 'rotation'
+    try:
+        with np.errstate(all='ignore'):
+            if entry == 'Quaternion(dcm=)':
+                q = np.asarray(ahrs.Quaternion(dcm=Rm.copy(), method=m, **kw))[None, :]
+                nrow = 1
+            else:
+                nrow = int(inp.get('N', 2))
+                q = np.asarray(ahrs.QuaternionArray(DCM=np.array([Rm] * nrow), method=m, **kw))
+    except REJ as e:
+        return {'tag': f'{entry}/{m}/rejects-valid-{cls}', 'observed': f'{type(e).__name__}: {e}', 'expected': 'a unit quaternion'}
+    if np.iscomplexobj(q) or q.dtype != np.dtype(float) or cm.bad(q) or q.shape != (nrow, 4):
+        return {'tag': f'{entry}/{m}/nonfinite-or-not-real-{cls}', 'observed': q}
+    nr = np.linalg.norm(q, axis=1)
+    if cm.maxabs(nr, 1.0) > TOL:
+        return {'tag': f'{entry}/{m}/not-unit-{cls}', 'observed': nr, 'expected': 1.0}
+    return None
+
+
+ORACLES = {'dcm_methods': o_dcm_methods, 'quat': o_quat, 'ops': o_ops, 'dcm_route': o_dcm_route, 'so3_boundary': o_so3_boundary, 'decision': o_decision}
 
 NS = (1, 2, 3, 4, 5, 7)
 
@@ -960,6 +1015,15 @@ def search(ctx, scale):
             ctx.check('so3_boundary', inp, cm_call(o_so3_boundary, inp, entry), nontrivial_key=(entry, 'near', i))
             inp = {'entry': entry, 'M': [[repr(x) if x != x else x for x in r] for r in far.tolist()], 'expect': 'reject', 'family': fam}
             ctx.check('so3_boundary', inp, cm_call(o_so3_boundary, inp, entry), nontrivial_key=(entry, fam, i))
+    # ---- every DCM -> quaternion method, through both constructors, on valid rotations of every thin region
+    for i, (reg, Rm) in enumerate(rotation_regions(rng, 5 * scale)):
+        for m, kw in DCM_METHODS:
+            for entry in ('Quaternion(dcm=)', 'QuaternionArray(DCM=)'):
+                inp = {'entry': entry, 'method': m, 'kw': kw, 'M': Rm.tolist(), 'region': reg}
+                if entry.startswith('QuaternionArray'):
+                    inp['N'] = NS[i % len(NS)]
+                ctx.check('dcm_methods', inp, cm_call(o_dcm_methods, inp, f'{entry}/{m}'),
+                          nontrivial_key=(entry, m, tuple(kw.items()), reg, i) if reg != 'identity' else None)
     # ---- rejections of what cannot be a rotation (a sample of the decision grid goes through the oracle as well)
     cells = grid_cells()
     pick = [c for c in cells if c[0][-1] in ('zero', 'zerorow', 'nan', 'reflect', 'scaled') or len(c[0]) == 3]
